@@ -227,3 +227,38 @@ def random_unit(rng, n=3):
 
 def loguniform(rng, lo, hi, size=None):
     return np.exp(rng.uniform(np.log(lo), np.log(hi), size=size))
+
+
+# ---------------------------------------------------------------------
+# call-history purity monitor
+# ---------------------------------------------------------------------
+def purity_check(ctx, rng, thunks, mon="purity", rounds=2):
+    """thunks: list of (site, description, callable without arguments) of functions that are pure by their contract.
+    Every thunk is evaluated once, then all of them again `rounds` times in seeded random order; a result that differs
+    (bitwise, NaNs equal) from the first evaluation means the function's value depends on what was evaluated before -
+    a memo keyed on too little, an array shared between calls and modified in place, a stateful fast path."""
+    def norm(y):
+        if isinstance(y, (tuple, list)):
+            return [norm(v) for v in y]
+        return np.array(y, copy=True)
+
+    def same(a, b):
+        if isinstance(a, list):
+            return isinstance(b, list) and len(a) == len(b) and all(same(x, y) for x, y in zip(a, b))
+        return a.shape == b.shape and np.array_equal(a, b, equal_nan=True)
+
+    first = []
+    for site, desc, f in thunks:
+        first.append(norm(f()))
+    bad = set()
+    for _ in range(rounds):
+        for i in rng.permutation(len(thunks)):
+            site, desc, f = thunks[int(i)]
+            ctx.mon(mon)
+            y = norm(f())
+            if not same(y, first[int(i)]) and int(i) not in bad:
+                bad.add(int(i))
+                ctx.violation(site, "repeated evaluation with identical arguments returns different values (the result depends on the call history)",
+                              {"call": desc, "first": first[int(i)] if not isinstance(first[int(i)], list) else first[int(i)][0],
+                               "later": y if not isinstance(y, list) else y[0]})
+    return not bad
